@@ -127,7 +127,9 @@ def continue_coop(p, full, r, res, prefix_desc):
             if est_at > deadline:
                 return ('not-established-in-time', 'Established only after %d ticks (> idle_hold_time + slack)' % (est_at - t0))
             H = min(full['hold_time'], coop.peer_hold)
-            end = est_at + 3 * (H if H else 60) * TICKS
+            # three hold times; with hold time 0 longer than the 4-minute large hold timer of OpenSent, which must not
+            # survive into the session
+            end = est_at + (3 * H if H else 300) * TICKS
             # the parameters the new session was offered: the OPEN written on the tracked connection
             pc = w.connectors[o['proto']]
             ow = [b for b in pc.written if b[18] == 1]
